@@ -98,6 +98,7 @@ NOTSAN static int peer_drain(Peer* p)
 
 /* ================================================================== server scenario */
 static CS104_Slave slave;
+static volatile int clock_torn = 0;
 
 static void make_measurement(CS101_AppLayerParameters alp, int v, CS101_ASDU* out)
 {
@@ -141,6 +142,18 @@ static bool s_interrogation(void* p, IMasterConnection con, CS101_ASDU asdu, uin
     if (P.reent) reenter_server(con, "interrogationHandler");
     return true;
 }
+/* the other system commands: every connection thread decodes into its own objects; the time handed to the clock handler must be the
+   one of ITS command also when another connection is served at the same moment (read it a few times while other threads run) */
+static bool s_clock(void* p, IMasterConnection con, CS101_ASDU asdu, CP56Time2a t)
+{
+    (void) p; (void) con; (void) asdu; __sync_fetch_and_add(&n_asdus, 1);
+    int m0 = CP56Time2a_getMinute(t), h0 = CP56Time2a_getHour(t);
+    for (int i = 0; i < 20; i++) { usleep(20); if (CP56Time2a_getMinute(t) != m0 || CP56Time2a_getHour(t) != h0) { if (!clock_torn) clock_torn = 1; } }
+    return true;
+}
+static bool s_counter(void* p, IMasterConnection con, CS101_ASDU asdu, QualifierOfCIC q) { (void) p; (void) q; __sync_fetch_and_add(&n_asdus, 1); IMasterConnection_sendACT_CON(con, asdu, false); return true; }
+static bool s_read(void* p, IMasterConnection con, CS101_ASDU asdu, int ioa) { (void) p; (void) con; (void) asdu; (void) ioa; __sync_fetch_and_add(&n_asdus, 1); return true; }
+
 static bool s_asdu(void* p, IMasterConnection con, CS101_ASDU asdu)
 {
     (void) p; (void) asdu; __sync_fetch_and_add(&n_asdus, 1);
@@ -185,7 +198,15 @@ NOTSAN static void* srv_peer(void* arg)
     for (int w = 0; w < 400 && !p->gotStartCon; w++) { peer_drain(p); usleep(200); }
     for (int i = 0; i < P.rounds; i++) {
         int op = below(r, 12);
-        if (op < 4) peer_send_i(p, gi, 10, r);
+        if (op < 3) peer_send_i(p, gi, 10, r);
+        else if (op < 4) {      /* another system command: clock synchronisation (time differs per peer), counter interrogation, read, test */
+            uint8_t cs[16] = {0x67, 0x01, 0x06, 0x00, 0x01, 0x00, 0x00, 0x00, 0x00, 0x10, 0x27, (uint8_t) (p->id * 7 + 1), (uint8_t) (p->id + 1), 0x01, 0x01, 0x18};
+            static const uint8_t ci[10] = {0x65, 0x01, 0x06, 0x00, 0x01, 0x00, 0x00, 0x00, 0x00, 0x05};
+            static const uint8_t rd[9] = {0x66, 0x01, 0x05, 0x00, 0x01, 0x00, 0x10, 0x00, 0x00};
+            static const uint8_t ts[11] = {0x68, 0x01, 0x06, 0x00, 0x01, 0x00, 0x00, 0x00, 0x00, 0xaa, 0x55};
+            int w_ = below(r, 6);
+            if (w_ < 3) peer_send_i(p, cs, 16, r); else if (w_ < 4) peer_send_i(p, ci, 10, r); else if (w_ < 5) peer_send_i(p, rd, 9, r); else peer_send_i(p, ts, 11, r);
+        }
         else if (op < 6) peer_send_i(p, cmd, 10, r);
         else if (op < 8) peer_send_s(p);
         else if (op < 9) peer_send_u(p, 0x43);              /* TESTFR act */
@@ -217,6 +238,9 @@ static void run_srv(void)
     CS104_Slave_setConnectionEventHandler(slave, s_event, NULL);
     CS104_Slave_setInterrogationHandler(slave, s_interrogation, NULL);
     CS104_Slave_setASDUHandler(slave, s_asdu, NULL);
+    CS104_Slave_setClockSyncHandler(slave, s_clock, NULL);
+    CS104_Slave_setCounterInterrogationHandler(slave, s_counter, NULL);
+    CS104_Slave_setReadHandler(slave, s_read, NULL);
     if (P.raw) CS104_Slave_setRawMessageHandler(slave, s_raw, NULL);
     CS104_Slave_start(slave);
     for (int w = 0; w < 2000 && !CS104_Slave_isRunning(slave); w++) usleep(100);
@@ -251,6 +275,7 @@ static void run_srv(void)
     }
     long ifr = 0; for (int i = 0; i < P.conns; i++) { ifr += peers[i].iframes; Sim_freeSocket(peers[i].s); }
     if (sim_sem_errors) printf("sem %d %s%s\n", sim_sem_errors, sim_sem_error_text, cb_note);
+    if (clock_torn) printf("shared the time handed to the clock synchronisation handler of one connection changed while the handler ran (another connection's command was decoded into the same object)\n");
     printf("done srv open=%d enq=%ld query=%ld events=%ld asdus=%ld raw=%ld iframes=%ld\n", open, n_enq, n_query, n_events, n_asdus, n_rawcb, ifr);
 }
 
